@@ -15,6 +15,7 @@ regenerates from the source tree on every run (`PyribsGen/RngSites.lean`).
 * T09.4 `spawn_distinct`     — over the GENERATED table
 * T09.5 `generated_run_noninterfering`, `generated_prog_noninterfering`,
         `generated_pickle_continuation`
+* T09.6 `entropy_only_collapses_siblings` — why `entropyOnly` provenance is not seeded
 
 Clause not carried by a theorem (statistical, see `PARTIAL` in harness/props/c09.py):
 "components given different seeds draw different streams".
@@ -37,7 +38,7 @@ theorem execLib_ok (draw : Site → Nat → Nat × Nat) (ent : Nat → Nat) (w :
   cases e with
   | glue f => simp [execLib, stepObj, World.emit, World.obj]
   | site s c use =>
-    have hs : s.prov.source = .own := (Site.seeded_iff_own s).1 h
+    have hs : s.prov.source = .own := Site.own_of_seeded s h
     simp [execLib, stepObj, World.emit, World.obj, hs]
 
 /-! ## Traces -/
@@ -426,6 +427,26 @@ theorem unseeded_site_interferes :
     (run draw (fun n => n) (w0 0) [.lib (.site sGlobal 0 use)]).glob ≠ 0 ∧
     sFresh.seeded = false ∧ sGlobal.seeded = false := by
   decide
+
+/-- **T09.6 (why a seed must be used whole).**  Children spawned from one parent are
+different seeds, a faithful copy keeps them apart, but rebuilding a SeedSequence from
+`.entropy` alone maps all of them (and all their descendants) to one and the same
+seed -- "components given different seeds draw different streams" then fails.  This is
+why a site with provenance `entropyOnly` is not `seeded` and breaks T09.3. -/
+theorem entropy_only_collapses_siblings (s : SeedSeq) (i j : Nat) :
+    (i ≠ j → s.child i ≠ s.child j) ∧
+    (i ≠ j → (s.child i).copy ≠ (s.child j).copy) ∧
+    (s.child i).fromEntropy = (s.child j).fromEntropy ∧
+    ((s.child i).child j).fromEntropy = s.fromEntropy ∧
+    (∀ p, (⟨"f.py", 1, 0, "E.__init__", .construct, "numpy.random.SeedSequence", .entropyOnly p⟩ : Site).seeded
+      = false) := by
+  refine ⟨?_, ?_, rfl, rfl, fun _ => rfl⟩
+  · intro h e
+    simp [SeedSeq.child] at e
+    exact h e
+  · intro h e
+    simp [SeedSeq.child, SeedSeq.copy] at e
+    exact h e
 
 /-- **Non-vacuity / sensitivity of T09.4.**  The check accepts the shape the source
 has (`opt_seed, ranker_seed = seed_sequence.spawn(2)`) and rejects a reused child,
